@@ -43,6 +43,27 @@ the one default object, so the container is one cell per process — an instance
 cleared at the end is exact under sequential use (`Props.C15.C15_global_sequential_reset`) and
 breaks under a single preemption (`Props.C15.C15_shared_default_memo_interferes`).  The check
 classifies every `ContextVar` of the package on every run (harness/props/c15.py, cell classes).
+
+Which cell is an attribute of an INPUT object?  `RTFDocument` keeps the component objects it is
+given by reference (`RTFPage`, `RTFTitle`, `RTFFootnote`, `RTFSource`, `RTFPageHeader`,
+`RTFPageFooter`; an `RTFBody` / `RTFColumnHeader` whose `col_rel_width` is explicit and of full
+length — only otherwise does the constructor make a copy of its own), and callers hand one such
+object to several documents.  Anything an encode *stores on* such an object (a pydantic
+`PrivateAttr`, an instance attribute, an entry of a container the object holds — e.g. "the RTF
+rows of this column header as they repeat on pages 2…n") is therefore reachable from every thread
+that encodes a document holding the object: one cell per process, `Shared.cell` /
+`CtxMode.Global`, exactly like the singleton attribute of the old colour service.  It is the
+per-thread cell (`CtxMode.Local`, `Thread.ctx`) only for documents that share no object, which is
+why a check whose concurrent documents are all built from fresh objects cannot see it.  The shape
+"reset on the first page, filled by the first later page that finds it empty, reused by every
+later page" is `objMemoProg` below (`Ev.fetch` = get-or-compute on the cell): exact under
+sequential use (`Props.C15.C15_object_memo_sequential`, an instance of
+`C15_global_sequential_reset`), and one preemption of a document anywhere between its reset and
+one of its later pages lets it replay what the *other* document stored
+(`Props.C15.C15_shared_object_memo_interferes`); documents with objects of their own are the
+`Local` instance and are never affected (`C15_local_complete`).  The check puts documents that
+share component objects by identity in flight together and classifies every shared object on
+every run (harness/props/c15.py: sets `shared-*`, cell classes of kind `input-object`).
 -/
 namespace Model.Interleave
 
@@ -90,6 +111,8 @@ inductive Ev where
   | lookup (c : Color)              -- `color_service.get_rtf_color_index(c)`; result recorded
   | clearCtx                        -- `color_service.clear_document_context()`
   | emit (v : Nat)                  -- local computation; contributes `v` to the thread's output
+  | fetch (p : Palette) (c : Color) -- get-or-compute on the colour cell: an empty cell is filled with
+                                    -- `p` (what this thread resolves), then read like `lookup c`
   deriving Repr, DecidableEq, Inhabited
 
 inductive Out where
@@ -127,6 +150,12 @@ inductive CtxMode where
   | Local    -- CURRENT code: one colour cell per thread (ContextVar)
   deriving Repr, DecidableEq, Inhabited
 
+/-- get-or-compute: a cell that holds something is left alone, an empty one receives `p` -/
+def fillCell (cell : Option Palette) (p : Palette) : Option Palette :=
+  match cell with
+  | none => some p
+  | some q => some q
+
 /-- effect of one event of a thread (whose `prog` has already been advanced) -/
 def exec (m : CtxMode) (e : Ev) (t : Thread) (s : Shared) : Thread × Shared :=
   match e with
@@ -145,6 +174,13 @@ def exec (m : CtxMode) (e : Ev) (t : Thread) (s : Shared) : Thread × Shared :=
     | .Global => (t, { s with cell := none })
     | .Local => ({ t with ctx := none }, s)
   | .emit v => ({ t with out := t.out ++ [.val v] }, s)
+  | .fetch p c =>
+    match m with
+    | .Global =>
+      ({ t with out := t.out ++ [.idx (colorIndex (fillCell s.cell p) c)] },
+       { s with cell := fillCell s.cell p })
+    | .Local =>
+      ({ t with ctx := fillCell t.ctx p, out := t.out ++ [.idx (colorIndex (fillCell t.ctx p) c)] }, s)
 
 structure State where
   threads : List Thread
@@ -231,6 +267,7 @@ def cellAfter : Option Palette → List Ev → Option Palette
   | c, .getStrategy _ :: es => cellAfter c es
   | c, .lookup _ :: es => cellAfter c es
   | c, .emit _ :: es => cellAfter c es
+  | c, .fetch p _ :: es => cellAfter (fillCell c p) es
 
 /-- the program never reads the colour cell before it has written it itself (`set` or `clear`
 first): its lookups do not depend on what earlier users left in a process-wide cell -/
@@ -239,6 +276,7 @@ def opensWithReset : List Ev → Bool
   | .setCtx _ :: _ => true
   | .clearCtx :: _ => true
   | .lookup _ :: _ => false
+  | .fetch _ _ :: _ => false
   | .register _ _ :: es => opensWithReset es
   | .getStrategy _ :: es => opensWithReset es
   | .emit _ :: es => opensWithReset es
@@ -269,5 +307,16 @@ use (`uses` of them) reads what the cell holds; nothing is cleared at the end.  
 for the stored values, the index of `key` in it for what a use obtains. -/
 def memoProg (resolved : Palette) (key : Color) (uses : Nat) : List Ev :=
   [.clearCtx, .setCtx resolved] ++ List.replicate uses (.lookup key)
+
+/-- a memo kept ON AN OBJECT (a private attribute of a component object, e.g. the rendered rows
+of a column header that repeat on the pages after the first), as events on the cell that object
+is: the first page forgets what the previous table left (`clear`), every later page (`pages - 1`
+of them) takes what the cell holds and, finding it empty, first stores what it resolves itself
+(`fetch`).  `resolved` stands for the rows this document would render (its `\cellx` positions,
+its `\cf` indices), the index of `key` in it for what a page obtains.  For documents that hold
+objects of their own the cell is `Thread.ctx` (`Local`); for documents that were given the same
+object it is `Shared.cell` (`Global`). -/
+def objMemoProg (resolved : Palette) (key : Color) (pages : Nat) : List Ev :=
+  .clearCtx :: List.replicate (pages - 1) (.fetch resolved key)
 
 end Model.Interleave
